@@ -63,6 +63,66 @@ CLAIMED = {
              "decided by the search oracle's normal-cone certificate only); IEEE rounding not modelled.",
         technique="Lean 4 proof over translator-generated prox formulas + exact-rational differential correspondence",
         design="DESIGN.md §3 C11, §9"),
+    "C01": dict(
+        text="Lean 4 theorems: coo_adjoint (for ANY entry list over a commutative star-ring, <E x, y> = <x, adjE E y>: swapping "
+             "indices and conjugating weights is the adjoint - removes the quantifier over x, y); applyF_append/compE/conjE (entry "
+             "lists add, compose as matrix products, conjugate as Conj does); adj_denote by structural induction over the Expr type "
+             "mirroring Compose/Add/Conj/Hstack/Vstack/Diag and every _adjoint_linop (Compose reverses, Add termwise, Conj(A).H = "
+             "Conj(A.H), Hstack<->Vstack same axis, Diag swaps axes) given the leaf pairs; leaf pairs proved at entry level for "
+             "Identity/Reshape/Slice/Embed and at index/loop level for Resize (C09 resize_transpose), Circshift (roll_inverse), "
+             "Down/Upsample, the 1/2/3-D block loop nests (scatter list is a permutation of the swapped gather list: multiset "
+             "statement with Nodup) and gridding = literally the index-swapped interpolate list for an arbitrary kernel in 1/2/3-D "
+             "(all about translator-generated Gen.Block / Gen.Interp). Tie: exact comparison of the implementation's matrices of A "
+             "and A.H (basis vectors + Gaussian-integer vector) with the model's entries for 19 leaf classes and random trees.",
+        note="Trusted: Lean kernel; translator (Gen.Block, Gen.Interp, formulas); the leaf-pair hypothesis of adj_denote is discharged "
+             "in Lean only for Identity/Reshape/Slice/Embed - for Transpose, Resize, Flip, Circshift, Down/Upsample, Sum/Tile, "
+             "Multiply/MatMul plumbing, blocks and interp through the wrapper it is validated by the exact correspondence; FFT, "
+             "NUFFT, convolution, wavelet, Kaiser-Bessel leaves and the MRI factories (Sense, ConvSense, ConvImage, "
+             "PtxSpatialExplicit) are decided by the dot-test search oracle only (their own properties C05/C06/C08/C10/C16 carry "
+             "theorems); IEEE rounding not modelled.",
+        technique="Lean 4 proof (entry-list adjoint + structural induction over operator trees) + exact differential correspondence",
+        design="DESIGN.md §3 C01, §9"),
+    "C04": dict(
+        text="Lean 4 theorems: normal_eq_default/normal_default (operators without an override get A.N = A.H*A acting as x -> "
+             "A.H(A x)), normal_gram (<A.N x, z> = <A x, A z>), circshift_normal_axis (shortcut Identity is right: roll inverse), "
+             "b2a1_a2b1_cover ((A^H A x)[b,i] = cover(i) x[b,i] for the generated 1-D block nests), cover_tiling / cover_overlap / "
+             "cover_gap, blocks_identity_wrong_witness (N=5,B=2,S=1: Identity would be wrong - the defect that was repaired). "
+             "Tie: exact comparison of the implementation's A.N matrix with the model's normal e for all leaf classes and random "
+             "trees; FFT/IFFT shortcut is C05's dftMatrix_unitary.",
+        note="Trusted: as C01. Not proved: reverse direction of cover = 1 iff tiling, 2-D/3-D cover theorems, BlocksToArray.N "
+             "characterisation, flat-index P^H P = I for Reshape/Transpose (validated by correspondence). Toeplitz NUFFT normal is "
+             "decided by the search oracle only (relative l2 error <= 6% at defaults, 0.6% at oversamp 2 = twice the C06 bound).",
+        technique="Lean 4 proof (normal = adjoint composed with operator; block cover counts) + exact differential correspondence",
+        design="DESIGN.md §3 C04, §9"),
+    "C19": dict(
+        text="Lean 4 theorems over C: su2_step_norm (the Cayley-Klein update multiplies |a|^2+|b|^2 by |av|^2+|bv|^2), each "
+             "simulator's step (abrm, abrm_nd, abrm_hp, abrm_ptx, optcont.blochsim) reduces to it and the code's parameter formulas "
+             "satisfy the unit constraints (cos^2+sin^2 = 1, unit axis), hence sim_unitary_* by induction for EVERY waveform length; "
+             "zero_rf_* (beta stays 0, |alpha| = 1); sim_append / sim_compose_* (simulating w1 ++ w2 is the SU(2) product, with the "
+             "explicit frame factor for abrm_hp); peel_* (one step of ab2rf's inverse-SLR peeling keeps the norm and zeroes the "
+             "leading/trailing coefficient). Tie: real simulators vs the exact Gaussian-rational fold of the float-derived "
+             "parameters (1e-12), ab2rf vs the model's exact (c_j, s_j) on Pythagorean pairs.",
+        note="Trusted: Lean kernel; hand-written step maps tied by correspondence (no translator for sim.py); NOT proved: full "
+             "ab2rf_inverts_forward on coefficient lists (one peel step only), blochsim composition (oracle only), b2a / mag2mp / "
+             "dzrf (numerical filter design and spectral factorisation: round-trip oracle only, 1e-6 on exact pairs, 1e-3 through "
+             "b2a); float rounding (the code's +eps) not modelled.",
+        technique="Lean 4 proof (SU(2) norm identity + induction over waveform) + differential correspondence + round-trip oracle",
+        design="DESIGN.md §3 C19, §9"),
+    "C20": dict(
+        text="Lean 4 theorems over R about the formulas the translator extracts from trap_grad / min_trap_grad (Gen/TrapGrad.lean: "
+             "ramp lengths, triangle/trapezoid test, flat length, rescale factor, flat count with its max(.,1) guard, gmax cap): for "
+             "all positive area, gmax, dgdt, dt the waveform starts and ends at 0, sum(trap)*dt = area exactly, |g| <= gmax and "
+             "|dg|/dt <= dgdt in both regimes incl. joints (trap_meets_limits, min_trap_meets_limits with flat-top area = area), "
+             "ramppts >= 1, min_trap_defined (with the guard the design always exists; the error branch is exactly 2*area < "
+             "dgdt*dt^2), spokes_axis_limits / spokes_gz_limits / blip_kspace for the concatenation. Tie: Gen/TrapGrad.lean "
+             "regenerated each run + real functions vs the exact rational model (sqrt enters as an integer hint checked against its "
+             "squared inequalities).",
+        note="Trusted: Lean kernel; translator gen_c20; the Rat-ceiling vs Nat.ceil bridge and the order-preserving cast Rat -> R "
+             "are assumed; spokes_grad assembly is compared exactly on labelled sub-waveforms, spoke sets whose blips are longer than "
+             "one slice-select lobe are outside the modelled domain; float rounding at ceiling ties not modelled (1e-9 slack in the "
+             "oracle).",
+        technique="Lean 4 proof over translator-generated design formulas + exact-rational differential correspondence",
+        design="DESIGN.md §3 C20, §9"),
 }
 NOT_YET = "check not built yet in this round (framework exists; see DESIGN.md §8 build order)"
 
